@@ -50,7 +50,7 @@ pub fn wild_layout(n: usize, nx: usize, rng: &mut Rng, sparse: bool, max_files: 
         .iter()
         .map(|k| BlkFileDesc {
             number: *k,
-            width: *rng.pick(&[5usize, 5, 5, 1, 2, 8, 20]),
+            width: *rng.pick(&[5usize, 5, 5, 1, 2, 8, 20, 21, 25, 40]),
             segs: vec![],
             symlink: false,
         })
@@ -276,6 +276,12 @@ fn world(prop: &str, family: &str, item: u64, rng: &mut Rng, tier: Tier) -> Scen
     }
     scn.index = index_opts(rng);
     scn.index.extra_keys = extra_index_keys(rng);
+    // length prefixes that are not the length of the block behind them (the index offset locates a block, the
+    // prefix is only reported): the same in every layout of the scenario
+    if rng.chance(1, 8) {
+        let d = *rng.pick(&[-1i64, -60, 1, 7, 300, 70_000]);
+        scn.params = serde_json::json!({ "size_prefix_delta": d });
+    }
     scn
 }
 
